@@ -28,6 +28,7 @@ type runOpts struct {
 	panics   bool
 	verbose  bool
 	noFilter bool
+	outDir   string
 }
 
 func main() {
@@ -49,6 +50,7 @@ func main() {
 	fs.BoolVar(&o.noCache, "no-cache", false, "ignore the result cache")
 	fs.BoolVar(&o.panics, "panics", false, "generate panic-freedom obligations")
 	fs.BoolVar(&o.verbose, "v", false, "verbose")
+	fs.StringVar(&o.outDir, "out", "", "directory for evidence/ and replays/ (default: the verification directory)")
 	fs.BoolVar(&o.noFilter, "no-filter", false, "do not restrict the prelude to the axioms relevant to each query")
 	fs.Parse(os.Args[2:])
 	if o.verifDir == "" {
@@ -57,6 +59,9 @@ func main() {
 		if _, err := os.Stat(filepath.Join(o.verifDir, "properties.jsonl")); err != nil {
 			o.verifDir = "/verif"
 		}
+	}
+	if o.outDir == "" {
+		o.outDir = o.verifDir
 	}
 	if o.tier == "" {
 		o.tier = os.Getenv("VERIF_TIER")
